@@ -714,6 +714,10 @@ fn indep_despawn(cfg: &Cfg) {
     shutdown();
 }
 
+fn keep_none(dropper: i64) -> bool {
+    dropper == 5
+}
+
 /// C05: the last owner of a Desync is dropped while work is queued / running / suspended
 ///  state 0: a desync queued  1: a blocking job running  2: a suspended future (gate opened by env)  3: future + desync
 ///  dropper 0: caller thread  1: a pool thread running another object's job  2: second caller racing a sync
@@ -846,6 +850,47 @@ fn drop_obj(cfg: &Cfg) {
                 rec.ret(dop);
                 check_after_drop(&rec);
             }));
+        }
+        5 | 6 => {
+            // a thread that is unwinding from an unrelated panic uses the object from a destructor (a "flush on drop" guard that
+            // calls sync) and then drops its reference: the last one (5), or not the last one: the main thread uses the object
+            // afterwards and then drops it (6)
+            struct SyncOnDrop(Arc<World>, Option<Obj>);
+            impl Drop for SyncOnDrop {
+                fn drop(&mut self) {
+                    let o = self.1.take().unwrap();
+                    self.0.sync(&o, "S-in-destructor", Body::plain());
+                }
+            }
+            let keep = if dropper == 6 { Some(o.clone()) } else { None };
+            let (w1, o_guard) = (w.clone(), o.clone());
+            let rec1 = rec.clone();
+            let t = vsched::thread::spawn(move || {
+                let dop = rec1.inv("DROP", st.id, Kind::Drop);
+                let _after = if keep_none(dropper) { Some(AfterDrop { rec: rec1.clone(), dop, check: Some(Box::new(check_after_drop)) }) } else { rec1.set_may_not_run(dop); None };
+                let _owner = o;
+                let _guard = SyncOnDrop(w1, Some(o_guard));
+                panic!("PLANNED-PANIC unrelated to the object, in a thread that uses it from a destructor");
+            });
+            panicking.push(t);
+            if let Some(o2) = keep {
+                bg.open();
+                g.open();
+                for h in panicking.drain(..) {
+                    let _ = h.join();
+                }
+                // no operation of the object ever panicked: it is as usable as before
+                w.sync(&o2, "S-after-unwind", Body::plain());
+                w.desync(&o2, "D-after-unwind", Body::plain());
+                let dop = w.rec.inv("DROP2", o2.id(), Kind::Drop);
+                drop(o2);
+                w.rec.start(dop);
+                w.rec.end(dop, false);
+                w.rec.ret(dop);
+                if w.payload_drops.load(AO::SeqCst) != 1 {
+                    rt::violation(format!("DROP-COUNT payload destroyed {} times when the last owner's drop returned", w.payload_drops.load(AO::SeqCst)));
+                }
+            }
         }
         3 => {
             // the last owner is dropped by a thread that is unwinding from a panic
